@@ -391,3 +391,7 @@ CHECKS = [
     Check("interleave_subprocess", judge, strategy=lambda tier: cases(names=["LaTeXToPDF", "PDFToPNG"]), quick=160, thorough=3000,
           rule="the same for LaTeXToPDF (stub create_command) and PDFToPNG (stub pdftoppm on PATH), 0-2 selected values."),
 ]
+
+
+from .. import covfuzz  # noqa
+CHECKS.append(covfuzz.check(CHECKS, "harness.props.c10", "interleave", quick=2000, thorough=40000))
